@@ -332,6 +332,15 @@ def gen_io_cases(ctx, out):
     out.append(io_file_case("fsym0", 2, True, 3, 3, [(0, 0, Fraction(2)), (1, 0, Fraction(5)), (2, 2, Fraction(7))]))
     out.append(io_file_case("fsym1", 1, True, 2, 2, [(1, 0, Fraction(5))]))
     out.append(io_file_case("fsym2", 3, True, 2, 2, [(1, 1, Fraction(3))]))
+    # a file without rows (both readers must return the empty matrix), and PETSc files in the machine's byte order
+    out.append(io_file_case("fzero0", 2, False, 0, 3, []))
+    out.append(io_file_case("fzero1", 1, False, 0, 0, []))
+    for n, (P, mode) in enumerate([(2, 2), (3, 3)]):
+        tr = [(0, 0, Fraction(3, 2)), (1, 1, Fraction(5, 2)), (1, 2, Fraction(-7))]
+        rb = [2] + [0] * (P - 2) + [1]; cb = [1] * 3 + [0] * (P - 3) if P >= 3 else [2, 1]
+        parts = [(sum(rb[:i]), rb[i], sum(cb[:i]), cb[i]) for i in range(P)] if mode & 1 else default_partition(3, 3, P)
+        line = " ".join(["ble%d" % n, "bin", str(P), "3", "3", "3", "1", "2", "0", "0", "1", "2"] + [tok(t[2]) for t in tr] + [str(mode)] + parts_tokens(parts))
+        out.append(dict(cid="ble%d" % n, kind="bin", P=P, nr=3, nc=3, tr=tr, mode=mode, parts=parts, line=line))
 
 def io_file_case(cid, P, sym, nr, nc, tr):
     parts = default_partition(nr, nc, P)
@@ -371,7 +380,7 @@ def judge_io(ctx, c, impl, model):
         want = full
     R = get(impl, cid, "R"); PR = get(impl, cid, "PR"); PW = get(impl, cid, "PW")
     if crashed(impl, cid) or R is None or PR is None or PW is None:
-        sig = "write_par_mm:pack_truncate" if (kind == "parmmrt" and c.get("risky")) else kind + ":crash"
+        sig = "write_par_mm:pack_truncate" if (kind == "parmmrt" and c.get("risky")) else ("read_par_mm:zero_rows" if (kind == "mmfile" and nr == 0) else kind + ":crash")
         ctx.signal("O", sig, "library crashed / aborted on P=%d: %s" % (P, str(impl.get(cid))[:300]), case=c["line"]); return
     # ---- O
     tolr = PRINT_RTOL      # also covers the decimal -> double conversion of the case values
@@ -383,7 +392,7 @@ def judge_io(ctx, c, impl, model):
         ok, why = dense_close(seq_d, want, tolr, 0)
         if ok and (Ri.nr, Ri.nc) != (nr, nc): ok, why = False, "dimensions %s, expected %s" % ((Ri.nr, Ri.nc), (nr, nc))
         if not ok:
-            sig = "read_mm:symmetric_ignored" if sym else {"mmrt": "write_mm_read_mm", "mmfile": "read_mm", "parmmrt": "write_par_mm_read_mm", "bin": "readMatrix"}[kind] + ":content"
+            sig = "read_mm:symmetric_ignored" if sym else ("readMatrix:native_order_values" if (kind == "bin" and c.get("mode", 0) & 2) else "") or {"mmrt": "write_mm_read_mm", "mmfile": "read_mm", "parmmrt": "write_par_mm_read_mm", "bin": "readMatrix"}[kind] + ":content"
             ctx.signal("O", sig, "sequential reader does not return the described matrix (P=%d): %s" % (P, why), case=c["line"])
     par_d = gathered(PR)
     ok, why = dense_close(par_d, want, tolr, 0)
